@@ -258,28 +258,14 @@ impl Rule {
                 .head
                 .terms
                 .drain(..)
-                .map(|t| {
-                    if let Term::Parameter(name) = &t {
-                        if let Some(Some(term)) = parameters.get(name) {
-                            return term.clone();
-                        }
-                    }
-                    t
-                })
+                .map(|t| t.apply_parameters(&parameters))
                 .collect();
 
             for predicate in &mut self.body {
                 predicate.terms = predicate
                     .terms
                     .drain(..)
-                    .map(|t| {
-                        if let Term::Parameter(name) = &t {
-                            if let Some(Some(term)) = parameters.get(name) {
-                                return term.clone();
-                            }
-                        }
-                        t
-                    })
+                    .map(|t| t.apply_parameters(&parameters))
                     .collect();
             }
 
